@@ -310,6 +310,31 @@ def _unary_real(f):
     return rule
 
 
+def _unary_int_or_real(fint, freal):
+    """elementwise unary op on a symbolic integer (case-wise, exact) or a symbolic real"""
+    def rule(ins, params):
+        x = ins[0]
+        if x.kind == "int":
+            return [Sym(_ew(lambda c: c.map(fint), x.a), "int", x.dtype)]
+        return [Sym(_ew(freal, x.a), "real")]
+    return rule
+
+
+def _reduce_int_or_real(fint, freal_fold):
+    real_rule = _reduce(freal_fold)
+
+    def fold_int(xs):
+        r = xs[0]
+        for x in xs[1:]:
+            r = r.map2(x, fint)
+        return r
+    int_rule = _reduce(fold_int)
+
+    def rule(ins, params):
+        return int_rule(ins, params) if ins[0].kind == "int" else real_rule(ins, params)
+    return rule
+
+
 def _uf1(name):
     return _unary_real(lambda x: Poly.const(0) if (name in ("tanh", "erf", "sin", "log1p", "expm1") and x.is_zero()) else S.uf(name, (x,)))
 
@@ -617,11 +642,11 @@ ARITH = {
     "neg": lambda ins, params: [Sym(_ew(lambda x: -x, ins[0].a), "real")] if ins[0].kind == "real"
     else [Sym(_ew(lambda c: c.map(lambda v: -v), ins[0].a), "int", ins[0].dtype)],
     "integer_pow": _integer_pow,
-    "square": _unary_real(lambda x: x * x),
+    "square": _unary_int_or_real(lambda v: v * v, lambda x: x * x),
     "sqrt": _unary_real(S.sqrt),
     "rsqrt": _unary_real(lambda x: S.recip(S.sqrt(x))),
-    "abs": _unary_real(S.pabs),
-    "sign": _unary_real(S.psign),
+    "abs": _unary_int_or_real(abs, S.pabs),
+    "sign": _unary_int_or_real(lambda v: (v > 0) - (v < 0), S.psign),
     "pow": _pow,
     "tanh": _uf1("tanh"), "exp": _uf1("exp"), "log": _uf1("log"), "logistic": _uf1("logistic"),
     "erf": _uf1("erf"), "sin": _uf1("sin"), "cos": _uf1("cos"), "log1p": _uf1("log1p"),
@@ -636,10 +661,10 @@ ARITH = {
     "not": lambda ins, params: [Sym(_ew(S.bnot, ins[0].a), "bool")],
     "select_n": _select_n,
     "convert_element_type": _convert,
-    "reduce_sum": _reduce(_sum_list),
-    "reduce_max": _reduce(_fold(S.pmax)),
-    "reduce_min": _reduce(_fold(S.pmin)),
-    "reduce_prod": _reduce(_fold(lambda a, b: a * b)),
+    "reduce_sum": _reduce_int_or_real(lambda a, b: a + b, _sum_list),
+    "reduce_max": _reduce_int_or_real(max, _fold(S.pmax)),
+    "reduce_min": _reduce_int_or_real(min, _fold(S.pmin)),
+    "reduce_prod": _reduce_int_or_real(lambda a, b: a * b, _fold(lambda a, b: a * b)),
     "reduce_and": _reduce(lambda xs: S.band(*xs)),
     "reduce_or": _reduce(lambda xs: S.bor(*xs)),
     "argmax": _argminmax(True),
